@@ -269,7 +269,7 @@ def run_loop_isolated(rel, qualname, ordinal, ctx=None, find_kw=None, inner_mode
     for x in A.walk(node):
         if x.get("kind") == "VarDecl" and "id" in x and "name" in x:
             names[x["name"]] = x["id"]           # declarations inside the loop shadow same-named ones elsewhere in the function
-    info = {"names": names, "node": node, "nloops": len(loops), "inner_entries": inner_entries, "inner_iters": inner_iters}
+    info = {"names": names, "node": node, "nloops": len(loops), "inner_entries": inner_entries, "inner_iters": inner_iters, "entry_state": st.clone()}
     try:
         import re as _re
         from .. import core as _core
